@@ -696,11 +696,15 @@ class Registry:
                     continue   # loops that do not register anything we can read
                 for item in it:
                     e2 = env
-                    if isinstance(st.target, ast.Name):
-                        e2[st.target.id] = item
-                    elif isinstance(st.target, ast.Tuple):
-                        for t, x in zip(st.target.elts, item):
+                    def bind(t, x):
+                        if isinstance(t, ast.Name):
                             e2[t.id] = x
+                        elif isinstance(t, (ast.Tuple, ast.List)) and isinstance(x, (list, tuple)) and len(t.elts) == len(x):
+                            for t1, x1 in zip(t.elts, x):
+                                bind(t1, x1)
+                        else:
+                            raise AnalysisError(f'{module.name}: loop target `{ast.unparse(t)}` not bound (line {st.lineno})')
+                    bind(st.target, item)
                     e2['__inloop__'] = True
                     self._run_body(st.body, e2, module)
                     e2.pop('__inloop__', None)
